@@ -4,6 +4,7 @@
    `conforms`, which is proved to imply reachability in this transition system. *)
 From Coq Require Import ZArith List Bool.
 From F3 Require Import GoInt QuorumGen QuorumProofs Spec SpecProofs.
+From F3 Require Instance InstanceRun InstanceNoPanic Refine RefineNode RefineNet RefineRun.
 Import ListNotations.
 Open Scope Z_scope.
 
@@ -40,6 +41,53 @@ Theorem c01_quorum_predicate_is_the_code : forall part whole, 0 <= whole < Quoru
   QuorumGen.isStrongQuorum part whole = true <-> 3 * part >= 2 * whole.
 Proof. exact QuorumProofs.strong_iff. Qed.
 Print Assumptions c01_quorum_predicate_is_the_code.
+
+(* ---------- Layer N refines Layer S: agreement for networks of the EXECUTABLE instance model ----------
+   RefineNet: any number of Layer-N instances (Gpbft/Instance.v, the model that the trace correspondence ties to
+   gpbft.instance), started and scheduled arbitrarily, fed with admissible messages (the delivered vote was cast, the
+   carried justification has the shape validation enforces and is backed by a strong quorum whose honest members cast
+   that vote), plus Byzantine members casting arbitrary votes: the global vote history is reachable in Layer S ... *)
+Theorem c01_network_refines_spec : forall (c : Instance.config) (honest : nat -> bool) (input : nat -> Instance.chain),
+  InstanceNoPanic.committee_wf c -> Instance.c_total c <= 65535 -> (forall k, honest k = true -> input k <> []) ->
+  forall acts, RefineNet.all_ok c honest (RefineNet.net0 input) acts ->
+    reachable (Refine.power c) (Refine.committee c) honest input (RefineNet.n_votes (RefineNet.nrun c (RefineNet.net0 input) acts)).
+Proof. exact RefineNet.network_refines_spec. Qed.
+Print Assumptions c01_network_refines_spec.
+
+(* ... hence no two honest members ever report different decisions *)
+Theorem c01_network_agreement : forall (c : Instance.config) (honest : nat -> bool) (input : nat -> Instance.chain),
+  InstanceNoPanic.committee_wf c -> Instance.c_total c <= 65535 -> (forall k, honest k = true -> input k <> []) ->
+  3 * byz_power (Refine.power c) (Refine.committee c) honest < total (Refine.power c) (Refine.committee c) ->
+  forall acts k1 k2 j1 j2, RefineNet.all_ok c honest (RefineNet.net0 input) acts ->
+    RefineNet.member c honest k1 -> RefineNet.member c honest k2 ->
+    Instance.i_term (RefineNet.n_inst (RefineNet.nrun c (RefineNet.net0 input) acts) k1) = Some j1 ->
+    Instance.i_term (RefineNet.n_inst (RefineNet.nrun c (RefineNet.net0 input) acts) k2) = Some j2 ->
+    Instance.j_value j1 = Instance.j_value j2.
+Proof. exact RefineNet.network_agreement. Qed.
+Print Assumptions c01_network_agreement.
+
+(* the executable schedule checker (used for the example below and for replaying real multi-node runs) is sound *)
+Theorem c01_schedule_checker_sound : forall (c : Instance.config) (honest : nat -> bool) (input : nat -> Instance.chain) acts n,
+  RefineRun.all_okb c honest n acts = true -> RefineNet.all_ok c honest n acts.
+Proof. intros c honest input acts n. apply RefineRun.all_okb_sound. exact input. Qed.
+Print Assumptions c01_schedule_checker_sound.
+
+(* non-vacuity: 3 honest members (inputs [1;2;3], [1;2;3], [1;2]) and a Byzantine one (just under a third) that votes for a
+   foreign chain and for bottom; every broadcast is delivered to everybody, alarms fire when nothing is in flight; the
+   schedule (186 actions) satisfies all hypotheses and every honest member decides [1;2] in round 1 *)
+Definition nx_cfg := Instance.mkCfg [16384; 16384; 16384; 16383] 65535 5 3 2000 [2000; 3000; 4500] [700; 900; 1100].
+Definition nx_honest := fun n : nat => negb (Nat.eqb n 3).
+Definition nx_input := fun n : nat => match n with 0%nat => [1;2;3] | 1%nat => [1;2;3] | _ => [1;2] end.
+Definition nx_byz := [RefineNet.AByz (V 3 0 QUALITY (Some [1;9])); RefineNet.AByz (V 3 0 PREPARE (Some [1;9])); RefineNet.AByz (V 3 0 COMMIT None)].
+Definition nx_msgs := [Instance.mkM 3 0 Instance.QUALITY [1;9] 0 None; Instance.mkM 3 0 Instance.PREPARE [1;9] 0 None; Instance.mkM 3 0 Instance.COMMIT [] 0 None].
+Definition nx_acts := RefineRun.auto_actions_from nx_cfg nx_input nx_byz nx_msgs [0;1;2] 60.
+Example c01_network_example :
+  InstanceRun.cfg_wfb nx_cfg = true /\
+  RefineRun.all_okb nx_cfg nx_honest (RefineNet.net0 nx_input) nx_acts = true /\
+  (3 * byz_power (Refine.power nx_cfg) (Refine.committee nx_cfg) nx_honest <? total (Refine.power nx_cfg) (Refine.committee nx_cfg)) = true /\
+  map (fun k => option_map Instance.j_value (Instance.i_term (RefineNet.n_inst (RefineNet.nrun nx_cfg (RefineNet.net0 nx_input) nx_acts) k))) [0;1;2]
+    = [Some [1;2]; Some [1;2]; Some [1;2]].
+Proof. vm_compute. repeat split. Qed.
 
 (* non-vacuity: a reachable execution with an equivocating Byzantine participant and a decision *)
 Example c01_example :
